@@ -1,4 +1,5 @@
 import StunVerif.Props.C09
+import StunVerif.Props.C09Burst
 #print axioms StunVerif.C09.xor_constant
 #print axioms StunVerif.C09.crc_check_value
 #print axioms StunVerif.C09.build_fp
@@ -7,3 +8,5 @@ import StunVerif.Props.C09
 #print axioms StunVerif.C09.input_covers
 #print axioms StunVerif.C09.length_field_checked
 #print axioms StunVerif.C09.corruption_needs_collision
+#print axioms StunVerif.C09.fp_detects
+#print axioms StunVerif.C09.fp_detects_parser
